@@ -2,6 +2,7 @@
 import rules_sched as S
 import rules_dep as D
 import rules_ctx as K
+import rules_db as B
 
 TB = ['rustc (nightly) MIR construction and type checking of the current /repo tree', 'Rust/C11 memory model and std/parking_lot/dashmap semantics',
       'the hand argument of DESIGN.md section 2 linking the structural obligations to the behaviour']
@@ -10,6 +11,12 @@ AS = ['user-supplied databases and precompiles do not call back into the schedul
 NOT_APPLICABLE = {}
 
 PROPS = {
+    'C01': dict(claim="Decides the structural necessary conditions of the read/validate/rewind mechanism on every MIR path: reads resolve to the latest strictly-preceding writer (R3), every lookup enters the read set with the version of the very entry used (R1/R4), the validation decision table (V1), the three MV-memory mutators and what they write (W1), publication table of writes (D2), storage resolution table (D3), plus the shared scheduler obligations N1-N9, X1-X5 and orderings A1-A5. Equality of outcomes/bundles with in-order revm for all blocks and schedules is NOT claimed.",
+                level='other', rules=[B.R3_latest_preceding_writer, B.R1_R4_reads, B.V1_validate_table, B.W1_mv_mutators, B.D2_publish_writes, B.D3_storage_table,
+                                      S.N1_timestamp_before_scan, S.N2_mark_before_rewind, S.N3_publish_before_rewind, S.N6_finality, S.N7_rewind_under_guard,
+                                      S.N8_status_relation, S.N9_incarnation, S.X_execute_task_tail, S.X_result_storage, K.A_atomics],
+                explanation='structural necessary conditions of read resolution, read-set recording, validation, publication and rewinds, decided on every MIR path of the anchored functions; outcome equality is not claimed',
+                trusted_base=TB, assumptions=AS),
     'C14': dict(claim='Complete for this property: O1 (every public path to results/state mutation or thread spawning passes through the closure given to run_once), O2 (closure runs exactly on the success edge of one strong compare_exchange(false,true); losing edge returns the once-error before touching anything), O3 (no other access to `started`, initially false), O4 (take_result_and_state consumes self), O5 (results initially empty) are all decided mechanically; under Rust aliasing rules and RMW atomicity they imply at-most-once execution for every interleaving of entry-point calls.',
                 level='proof', rules=[K.O_run_once],
                 explanation='O1-O5 jointly imply the statement under the trusted base (Rust aliasing, RMW atomicity); each is decided on the MIR of the current tree',
